@@ -169,9 +169,69 @@ func predUnhashableIndex(c *construct, ops []interface{}) bool {
 	return m && u
 }
 
+// ---- KF-C05-R8: same_as on two values of one comparable TYPE whose contents cannot be compared ----
+
+// eqPanics: does Go's == on the two interface values panic?
+func eqPanics(x, y interface{}) (p bool) {
+	defer func() {
+		if recover() != nil {
+			p = true
+		}
+	}()
+	return x == y && false
+}
+
+// predSameAsUncomparable: the source applies the same_as test, and among the values it can compare
+// (the operands, and the first / last element of an operand that is a list or array) there are two -
+// possibly the same one twice - of one dynamic type that Go accepts as comparable although == on
+// them panics (a struct or array with an interface inside that holds a slice, map or func).
+func predSameAsUncomparable(src string, ops []interface{}) bool {
+	if !strings.Contains(src, "same_as(") && !strings.Contains(src, "sameas(") && !strings.Contains(src, "same as(") {
+		return false
+	}
+	var cand []interface{}
+	for _, o := range ops {
+		cand = append(cand, o)
+		if rv := reflect.ValueOf(o); rv.IsValid() && (rv.Kind() == reflect.Slice || rv.Kind() == reflect.Array) && rv.Len() > 0 {
+			cand = append(cand, rv.Index(0).Interface(), rv.Index(rv.Len()-1).Interface())
+		}
+	}
+	for _, x := range cand {
+		if x == nil || !reflect.TypeOf(x).Comparable() {
+			continue
+		}
+		for _, y := range cand {
+			if y != nil && reflect.TypeOf(y) == reflect.TypeOf(x) && eqPanics(x, y) {
+				return true
+			}
+		}
+	}
+	return false
+}
+
+// knownSameAsPanic: predicate + quirk (the exact runtime error, raised by testSameAs itself).
+func knownSameAsPanic(src string, ops []interface{}, pan string) string {
+	if strings.HasPrefix(panicMsg(pan), "runtime error: comparing uncomparable type") && firstTwigFrame(pan) == "(*CoreExtension).testSameAs" && predSameAsUncomparable(src, ops) {
+		return "KF-C05-R8"
+	}
+	return ""
+}
+
 // knownRenderPanic: which open finding, if any, explains this panic raised while rendering a grid case.
 func knownRenderPanic(c *construct, v, a, b *shape, pan string) string {
 	msg, fr := panicMsg(pan), firstTwigFrame(pan)
+	{
+		ops := []interface{}{v.v}
+		if c.a {
+			ops = append(ops, a.v)
+		}
+		if c.b {
+			ops = append(ops, b.v)
+		}
+		if k := knownSameAsPanic(c.src, ops, pan); k != "" {
+			return k
+		}
+	}
 	if strings.HasPrefix(msg, "regexp: Compile(") && strings.Contains(msg, "invalid UTF-8") && fr == "(*CoreExtension).filterSplit" && predSplitBadDelimiter(c, a) {
 		return "KF-C05-R1"
 	}
